@@ -357,7 +357,10 @@ pub fn replay_file(path: &str, lookup: &dyn Fn(&str, &str, bool) -> Option<Box<C
     let nonce = v["nonce"].as_u64().unwrap_or(0);
     println!("seed={} replay of {} {}/{} run_seed={} tape_len={}", v["seed"], path, property, check, rs, tape.len());
     let file_gen = v["gen"].as_u64().unwrap_or(1) as u32;
-    let out = crate::tape::with_gen(file_gen, || case(rs, nonce, Some(tape)));
+    // A crash replay file has no tape (the process died before it could be recorded): the run's
+    // decisions are drawn again from its seed, which is the same thing.
+    let tape_opt = if v["tape"].is_null() { None } else { Some(tape) };
+    let out = crate::tape::with_gen(file_gen, || case(rs, nonce, tape_opt));
     for line in &out.trace {
         println!("  {}", line);
     }
